@@ -336,5 +336,6 @@ package packfile
 //gvc:  opt frame args
 //gvc:  results otps err
 //gvc:  loop 1 invariant pos: it1 >= 0
+//gvc:  loop 1 invariant plain: packWindow == 0 ==> calls("encodedDeltaObject") == 0
 //gvc:  ensures fixed: err == nil && calls("encodedDeltaObject") >= 1 ==> calls("fixAndBreakChains") == 1 && lastres("fixAndBreakChains") == nil
 //gvc:end
